@@ -78,6 +78,7 @@ structure Hdr where
   priv : List (String × J)   -- private members in document order (duplicates kept)
   payload : String        -- `message.Payload()` as text
   ref : Nat               -- SHA-256 of the input bytes (supplied)
+  framingStrict : Bool := true   -- the bytes are the JSON serialization or exactly three canonical unpadded base64url segments (supplied)
   deriving Repr
 
 /-- jwx stores private members in a map: the last occurrence wins -/
@@ -111,6 +112,7 @@ structure Cfg where
   allowedVersion : List Int
   lcStrict : Bool     -- parseLamportClock rejects non-integral / out-of-range values
   jwkPublicOnly : Bool := true   -- parseSignatureParams refuses an embedded private or symmetric key
+  strictFraming : Bool := true   -- ParseTransaction refuses what jws.Parse tolerates beyond RFC 7515 framing
   sigtH : String := "sigt"
   verH : String := "ver"
   prevsH : String := "prevs"
@@ -200,7 +202,8 @@ def parseLamportClock (cfg : Cfg) (h : Hdr) : Res Nat :=
 
 /-- `ParseTransaction` after `jws.Parse` succeeded -/
 def parse (cfg : Cfg) (b64 : String → Bool) (h : Hdr) : Res Tx :=
-  if h.nSigs = 0 then .err "no-signature"
+  if cfg.strictFraming && !h.framingStrict then .err "parse"
+  else if h.nSigs = 0 then .err "no-signature"
   else if h.nSigs > 1 then .err "multiple-signatures"
   else do
     parseSigningAlgorithm cfg h
@@ -271,10 +274,11 @@ def isPrivName (k : String) : Bool :=
   !(k = "alg" || k = "cty" || k = "kid" || k = "jwk" || k = "crit" || jwxStringMembers.contains k)
 
 /-- the header jwx presents for a protected header with the given members (document order, duplicates kept) -/
-def hdrOfMembers (nSigs : Nat) (members : List (String × J)) (jwkOK jwkPrivate : Bool) (payload : String) (ref : Nat) : Res Hdr :=
+def hdrOfMembers (nSigs : Nat) (members : List (String × J)) (jwkOK jwkPrivate : Bool) (payload : String) (ref : Nat)
+    (framingStrict : Bool := true) : Res Hdr :=
   match jwxMembers jwkOK {} members with
   | .ok r => .ok { nSigs := nSigs, alg := r.alg, cty := r.cty, hasJwk := r.hasJwk, jwkPrivate := jwkPrivate, kid := r.kid,
-                   priv := r.priv, payload := payload, ref := ref }
+                   priv := r.priv, payload := payload, ref := ref, framingStrict := framingStrict }
   | .err e => .err e
   | .panic p => .panic p
 
